@@ -92,3 +92,12 @@ claim("C09", "DESIGN.md 5/C09",
       "word count, callout header and PCE identity) are symbolic. Where the mode cannot decode the extra file, stdout "
       "(compared through the remembered JSON objects), written files and exit status must equal the run without it; in "
       "every case stdout must be one well-framed document and the exit status 0.")
+
+claim("C04", "DESIGN.md 5/C04",
+      "sectionFun -> UserData / ExtUserData / Default .toJSON -> ParseUserData.parse / parseCustom / "
+      "getBuiltinFormatJSON are executed with the creator byte, component id, sub-type and version symbolic and the "
+      "plugin's behaviour scripted (absent, returns object / list / string / null / None / '', raises with and without "
+      "arguments, plugins disabled, unrecognised section id symbolic); the built-in text format on symbolic ASCII "
+      "windows against an independent line oracle; the built-in JSON format on 10 JSON texts with symbolic padding; "
+      "and, for every decoder-less path, pel.hexdump.parse applied to the displayed dump must return the payload with a "
+      "2-byte symbolic window. 62 cases, each 'Confirmed over all paths'.")
